@@ -277,6 +277,11 @@ class Index(_Gap):
         if isinstance(values, Series):
             return BoolArray([zor(z3.And(p, z3.Not(nl), v == lab) for v, nl, p in zip(values.vals, values.nulls, values.present)
                                   if z3.is_expr(v) and v.sort() == lab.sort()) for lab in self.labels])
+        if isinstance(values, Index) and not isinstance(values, MultiIndex) and not isinstance(self, MultiIndex):
+            zl = lambda x: z3.IntVal(x) if isinstance(x, int) and not isinstance(x, bool) else x  # noqa: E731
+            mine, theirs = [zl(x) for x in self.labels], [zl(x) for x in values.labels]
+            return BoolArray([zor(z3.And(p, v == lab) for v, p in zip(theirs, values.present) if z3.is_expr(v) and z3.is_expr(lab) and v.sort() == lab.sort())
+                              for lab in mine])
         raise ModelGap("Index.isin(non-series)")
 
     def to_series(self):
